@@ -252,7 +252,8 @@ int32_t psEccDsaVerify(psPool_t *pool, const psEccKey_t *key,
     }
 
     /* compute u1*mG + u2*mQ = mG */
-    if ((err = eccMulmod(pool, &u1, mG, mG, &m, 0, A)) != PS_SUCCESS)
+    if (pstm_iszero(&u1) == PS_FALSE &&
+        (err = eccMulmod(pool, &u1, mG, mG, &m, 0, A)) != PS_SUCCESS)
     {
         goto error;
     }
@@ -267,8 +268,19 @@ int32_t psEccDsaVerify(psPool_t *pool, const psEccKey_t *key,
         goto error;
     }
 
+    if (pstm_iszero(&u1) == PS_TRUE)
+    {
+        /* e == 0 (mod n): u1*G is the point at infinity, which the point
+           routines cannot represent; the sum is u2*Q alone */
+        if ((err = pstm_copy(&mQ->x, &mG->x)) != PS_SUCCESS ||
+            (err = pstm_copy(&mQ->y, &mG->y)) != PS_SUCCESS ||
+            (err = pstm_copy(&mQ->z, &mG->z)) != PS_SUCCESS)
+        {
+            goto error;
+        }
+    }
     /* add them */
-    if ((err = eccProjectiveAddPoint(pool, mQ, mG, mG, &m, &mp, A)) != PS_SUCCESS)
+    else if ((err = eccProjectiveAddPoint(pool, mQ, mG, mG, &m, &mp, A)) != PS_SUCCESS)
     {
         goto error;
     }
